@@ -470,6 +470,9 @@ func ShowMain(t *testing.T, path string) int {
 		for i, cs := range r.Conns {
 			tr := ParseOut(cs)
 			fmt.Printf("conn %d: out=%q grammar=%v closed=%d wedged=%v\n", i, pgwire.Kinds(tr.Msgs), tr.Grammar, cs.Closed, cs.Wedged)
+			if len(cs.LiveHeap) > 0 {
+				fmt.Printf("   live heap %v\n   live stacks %v\n", cs.LiveHeap, cs.LiveStack)
+			}
 			for _, m := range tr.Msgs {
 				if m.Type == 'E' {
 					fmt.Printf("   E %v\n", m.Fields)
